@@ -323,6 +323,8 @@ func (c *Class) DeepCopyEnv(oldEnv, newEnv *GlobalEnvironment) *Class {
 		defined:       c.defined,
 		native:        c.native,
 		compiled:      c.compiled,
+		immutable:     c.immutable,
+		ivarIndices:   c.ivarIndices,
 		Checked:       c.Checked,
 		NamespaceBase: MakeNamespaceBase(c.docComment, c.name),
 	}
@@ -340,6 +342,9 @@ func (c *Class) DeepCopyEnv(oldEnv, newEnv *GlobalEnvironment) *Class {
 
 	if c.parent != nil {
 		newClass.parent = DeepCopyEnv(c.parent, oldEnv, newEnv).(Namespace)
+		// keep the Children sets of the copied superclasses complete,
+		// calls are bound statically to classes without children
+		newClass.registerAsChild(newClass.Superclass())
 	}
 	return newClass
 }
